@@ -193,4 +193,372 @@ theorem Inv.update_SC {G : GT} {A : GA} {w : World} {p s : Nat} {S S' : Sub} {c 
       · simp only [hbs, if_false] at hSb
         exact hi.acc.conns a b cn hcn Pa Sb hPa hSb
 
+/-! ### `Receiver::receive`: what the three loops do -/
+
+/-- the result of a receive attempt relative to the world `w1` the successful
+`ZeroCopyReceiver::receive` started from -/
+def RecvOK (w1 : World) (s : Nat) (w2 : World) : RecvRes → Prop
+  | .some key p ch seq => ∃ S1 c rest, getS w1 s = some S1 ∧ abs S1.storage key = some p ∧
+      getC w1 p s = some c ∧ c.sub = (ch, seq) :: rest ∧ c.borrow < w1.cfg.borrowMax ∧
+      w2 = setC w1 { c with sub := rest, borrow := c.borrow + 1, gReceived := c.gReceived ++ [seq] }
+  | _ => w2 = w1
+
+theorem recvFromConn_spec {w : World} {s : Nat} {S : Sub} (hS : getS w s = some S) (key : Nat) :
+    RecvOK w s (recvFromConn w s S key).1 (recvFromConn w s S key).2 := by
+  simp only [recvFromConn]
+  split
+  · rfl
+  · rename_i p hp
+    split
+    · rfl
+    · rename_i c hc
+      split
+      · rfl
+      · rename_i hb
+        split
+        · rfl
+        · rename_i ch seq rest hsub
+          exact ⟨S, c, rest, hS, by rw [← smGet_eq_abs]; exact hp, hc, hsub, by omega, rfl⟩
+
+theorem recvScan_spec {w : World} {s : Nat} {S : Sub} (hS : getS w s = some S) :
+    ∀ (l : List (Nat × Nat)) (acc : ScanAcc),
+      RecvOK w s (recvScan w s S l acc).1 (recvScan w s S l acc).2.1
+  | [], acc => rfl
+  | (key, p) :: r, acc => by
+    simp only [recvScan]
+    split
+    · exact recvScan_spec hS r acc
+    · split
+      · exact recvScan_spec hS r acc
+      · split
+        · exact recvScan_spec hS r _
+        · have h := recvFromConn_spec hS key
+          generalize recvFromConn w s S key = x at h
+          obtain ⟨w', res⟩ := x
+          cases res with
+          | none =>
+            have h' : w' = w := h
+            subst h'
+            exact recvScan_spec hS r _
+          | maxBorrow => exact h
+          | some k q ch sq => exact h
+
+theorem recvTbr_spec {G : GT} {A : GA} {s : Nat} :
+    ∀ (fuel i : Nat) (w : World), Inv G A w →
+      ∃ w1, Inv G A w1 ∧ RecvOK w1 s (recvTbr w s fuel i).1 (recvTbr w s fuel i).2
+  | 0, i, w, hi => ⟨w, hi, rfl⟩
+  | fuel + 1, i, w, hi => by
+    simp only [recvTbr]
+    split
+    · exact ⟨w, hi, rfl⟩
+    · rename_i S hS
+      split
+      · exact ⟨w, hi, rfl⟩
+      · rename_i key hkey
+        have st := hi.top.subs s S hS
+        have hsh : Inv G A (setS w s { S with tbr := S.tbr.eraseIdx i }) :=
+          hi.tbr_shrink hS ((List.eraseIdx_sublist _ _).nodup st.tbrNodup)
+            (fun k hk => List.mem_of_mem_eraseIdx hk)
+        split
+        · exact recvTbr_spec fuel i _ hsh
+        · rename_i p hp
+          have hk : abs S.storage key = some p := by rw [← smGet_eq_abs]; exact hp
+          have hmem : key ∈ S.tbr := List.mem_of_getElem? hkey
+          cases hcq : getC w p s <;> simp only
+          all_goals
+            split
+            · exact recvTbr_spec fuel (i + 1) w hi
+            · rename_i hbm
+              have h := recvFromConn_spec hS key
+              generalize recvFromConn w s S key = x at h
+              obtain ⟨w', res⟩ := x
+              cases res with
+              | maxBorrow => exact ⟨w, hi, h⟩
+              | some k q ch sq => exact ⟨w, hi, h⟩
+              | none =>
+                have h' : w' = w := h
+                subst h'
+                simp only
+                split
+                · exact recvTbr_spec fuel (i + 1) w' hi
+                · rename_i hb0
+                  apply recvTbr_spec fuel i
+                  refine subDropConn_inv (S := { S with tbr := S.tbr.eraseIdx i }) (p := p) hsh
+                    (by simp [hS]) hk ?_ (st.tbr key hmem).2
+                    (not_mem_eraseIdx_of_nodup st.tbrNodup hkey)
+                  intro c' hc'
+                  have hc'' : getC w' p s = some c' := hc'
+                  rw [hcq] at hc''
+                  cases hc'' <;> omega
+
+theorem subReceive_spec {G : GT} {A : GA} {w : World} {s : Nat} (hi : Inv G A w) :
+    ∃ w1, Inv G A w1 ∧ RecvOK w1 s (subReceive w s).1 (subReceive w s).2 := by
+  simp only [subReceive]
+  split
+  · exact ⟨w, hi, rfl⟩
+  · rename_i S hS
+    obtain ⟨w1, hi1, h⟩ := recvTbr_spec (G := G) (A := A) (s := s) (S.tbr.length + 1) 0 w hi
+    generalize recvTbr w s (S.tbr.length + 1) 0 = x at h
+    obtain ⟨w', res⟩ := x
+    cases res with
+    | maxBorrow => exact ⟨w1, hi1, h⟩
+    | some k q ch sq => exact ⟨w1, hi1, h⟩
+    | none =>
+      have h' : w' = w1 := h
+      subst h'
+      simp only
+      split
+      · exact ⟨w', hi1, rfl⟩
+      · rename_i S' hS'
+        have h2 := recvScan_spec hS' (SlotMap.items S'.storage) {}
+        generalize recvScan w' s S' (SlotMap.items S'.storage) {} = y at h2
+        obtain ⟨w'', res, acc⟩ := y
+        cases res with
+        | maxBorrow => exact ⟨w', hi1, h2⟩
+        | some k q ch sq => exact ⟨w', hi1, h2⟩
+        | none =>
+          have h'' : w'' = w' := h2
+          subst h''
+          simp only
+          split
+          · exact ⟨w'', hi1, rfl⟩
+          · exact ⟨w'', hi1, rfl⟩
+
+/-! ### the `Sample` is created -/
+
+theorem heldOf_append (S : Sub) (l : List Held) (gr : List (Nat × Nat)) (a : Nat) :
+    heldOf { S with held := S.held ++ l, ghostRecv := gr } a =
+      heldOf S a ++ (l.filter fun h => h.pid = a).map (·.chunk) := by
+  unfold heldOf
+  simp only [List.filter_append, List.map_append]
+
+/-- a successful `ZeroCopyReceiver::receive` followed by the creation of the `Sample` -/
+theorem recv_some_inv {G : GT} {A : GA} {w1 : World} {s key p ch seq : Nat} {S1 : Sub} {c : Conn}
+    {rest : List (Nat × Nat)} (hi : Inv G A w1) (hS : getS w1 s = some S1)
+    (hk : abs S1.storage key = some p) (hC : getC w1 p s = some c) (hsub : c.sub = (ch, seq) :: rest)
+    (hb : c.borrow < w1.cfg.borrowMax) (tag : Nat)
+    (htag : ∀ P, getP w1 p = some P → P.payload.getD ch 0 = tag) :
+    Inv G A (setS (setC w1 { c with sub := rest, borrow := c.borrow + 1,
+                                    gReceived := c.gReceived ++ [seq] }) s
+      { S1 with held := S1.held ++ [{ key := key, pid := p, chunk := ch, seq := seq, tag := tag }],
+                ghostRecv := S1.ghostRecv ++ [(p, seq)] }) := by
+  obtain ⟨hpid, hsid, _⟩ := getC_some hC
+  obtain ⟨P, S0, hP, hS0, ct⟩ := hi.top.conns p s c hC
+  rw [hS] at hS0; cases hS0
+  have st := hi.top.subs s S1 hS
+  obtain ⟨a1, a2, a3⟩ := hi.acc.subs s S1 hS
+  have hgoal := Inv.update_SC (S' := { S1 with
+      held := S1.held ++ [{ key := key, pid := p, chunk := ch, seq := seq, tag := tag }],
+      ghostRecv := S1.ghostRecv ++ [(p, seq)] })
+    (c' := { c with sub := rest, borrow := c.borrow + 1, gReceived := c.gReceived ++ [seq] })
+    hi hS hC rfl rfl rfl ?_ ?_ ?_
+  · exact hgoal
+  · intro a hap
+    rw [heldOf_append]
+    have : ¬ p = a := fun h => hap h.symm
+    simp [this]
+  · refine ⟨?_, ?_, ?_⟩
+    · intro hex
+      have := st.dead hex key
+      rw [hk] at this; cases this
+    · intro h hh
+      show abs S1.storage h.key = some h.pid
+      rcases List.mem_append.mp hh with hh | hh
+      · exact a2 h hh
+      · simp only [List.mem_singleton] at hh
+        subst hh; exact hk
+    · intro hal h hh
+      rcases List.mem_append.mp hh with hh | hh
+      · exact a3 hal h hh
+      · simp only [List.mem_singleton] at hh
+        subst hh
+        exact ⟨P, hP, htag P hP⟩
+  · intro P' hP'
+    rw [hP] at hP'; cases hP'
+    have ca := hi.acc.conns p s c hC P S1 hP hS
+    have hheld : heldOf { S1 with
+        held := S1.held ++ [{ key := key, pid := p, chunk := ch, seq := seq, tag := tag }],
+        ghostRecv := S1.ghostRecv ++ [(p, seq)] } c.pid = heldOf S1 c.pid ++ [ch] := by
+      rw [heldOf_append, hpid]; simp
+    have hperm : (flight { c with
+          sub := rest, borrow := c.borrow + 1, gReceived := c.gReceived ++ [seq] } { S1 with
+        held := S1.held ++ [{ key := key, pid := p, chunk := ch, seq := seq, tag := tag }],
+        ghostRecv := S1.ghostRecv ++ [(p, seq)] }).Perm (flight c S1) := by
+      unfold flight
+      simp only [hheld, hsub]
+      rw [List.perm_iff_count]
+      intro x
+      simp only [List.map_cons, List.count_append, List.count_cons, List.count_nil]
+      omega
+    have hlen : c.sub.length = rest.length + 1 := by rw [hsub]; rfl
+    refine ⟨ca.usedLen, ?_, ?_, ?_, ?_, ?_, ?_, ?_⟩
+    · have := ca.subCap; show rest.length ≤ max c.cap 1; omega
+    · show c.borrow + 1 ≤ w1.cfg.borrowMax; omega
+    · have := ca.total
+      show rest.length + (c.borrow + 1) + c.comp.length ≤ max c.cap 1 + w1.cfg.borrowMax
+      omega
+    · show c.borrow + 1 = _
+      rw [hheld, List.length_append, ← ca.borrow]; rfl
+    · intro hsa
+      exact hperm.nodup_iff.mpr (ca.nodup hsa)
+    · intro hsa x
+      rw [hperm.mem_iff]
+      exact ca.used hsa x
+    · intro hsa hex
+      obtain ⟨i1, i2⟩ := ca.idle hsa hex
+      refine ⟨i1, ?_⟩
+      intro hal
+      have := (i2 hal).1
+      rw [hsub] at this; cases this
+
+/-- `Receiver::receive` followed by the creation of the `Sample` (the `.recv` case of `step` after `subUpdate`) -/
+theorem recv_inv {G : GT} {A : GA} {w : World} {s : Nat} (hi : Inv G A w) (hh : G.hole = none) :
+    match subReceive w s with
+    | (w2, .some key p ch seq) =>
+        ∀ S2, getS w2 s = some S2 →
+          Inv G A (setS w2 s { S2 with
+            held := S2.held ++ [{ key := key, pid := p, chunk := ch, seq := seq,
+                                  tag := (match getP w2 p with | some P => P.payload.getD ch 0 | none => 0) }],
+            ghostRecv := S2.ghostRecv ++ [(p, seq)] })
+    | (w2, .maxBorrow) => Inv G A w2
+    | (w2, .none) => Inv G A w2 := by
+  obtain ⟨w1, hi1, h⟩ := subReceive_spec (s := s) hi
+  generalize subReceive w s = x at h
+  obtain ⟨w2, res⟩ := x
+  cases res with
+  | none =>
+    have h' : w2 = w1 := h
+    subst h'; exact hi1
+  | maxBorrow =>
+    have h' : w2 = w1 := h
+    subst h'; exact hi1
+  | some key p ch seq =>
+    obtain ⟨S1, c, rest, hS, hk, hC, hsub, hb, hw2⟩ := h
+    simp only
+    intro S2 hS2
+    subst hw2
+    have hS2' : getS w1 s = some S2 := hS2
+    rw [hS] at hS2'; cases hS2'
+    apply recv_some_inv hi1 hS hk hC hsub hb
+    intro P hP
+    have hP' : getP (setC w1 { c with
+        sub := rest, borrow := c.borrow + 1, gReceived := c.gReceived ++ [seq] }) p = some P := hP
+    rw [hP']
+
+/-- `recv_inv` with the outcome of `subReceive` given by an equation -/
+theorem recv_inv_of_eq {G : GT} {A : GA} {w w2 : World} {s : Nat} {r : RecvRes} (hi : Inv G A w)
+    (hh : G.hole = none) (h : subReceive w s = (w2, r)) :
+    match r with
+    | .some key p ch seq =>
+        ∀ S2, getS w2 s = some S2 →
+          Inv G A (setS w2 s { S2 with
+            held := S2.held ++ [{ key := key, pid := p, chunk := ch, seq := seq,
+                                  tag := (match getP w2 p with | some P => P.payload.getD ch 0 | none => 0) }],
+            ghostRecv := S2.ghostRecv ++ [(p, seq)] })
+    | _ => Inv G A w2 := by
+  have := recv_inv (s := s) hi hh
+  rw [h] at this
+  cases r <;> exact this
+
+/-! ### a `Sample` is dropped -/
+
+/-- a `Sample` is dropped (the `.dsample` case of `step` before `subDestroyIfUnreferenced`) -/
+theorem dsample_inv {G : GT} {A : GA} {w : World} {s k : Nat} {S : Sub} {h : Held}
+    (hi : Inv G A w) (hS : getS w s = some S) (hk : S.held[k]? = some h) :
+    Inv G A (subRelease (setS w s { S with held := S.held.eraseIdx k }) s h) := by
+  obtain ⟨l1, l2, e1, e2⟩ := eraseIdx_split hk
+  have hmem : h ∈ S.held := List.mem_of_getElem? hk
+  have st := hi.top.subs s S hS
+  obtain ⟨a1, a2, a3⟩ := hi.acc.subs s S hS
+  have habs : abs S.storage h.key = some h.pid := a2 h hmem
+  obtain ⟨⟨c, hC, hra⟩, P, hP, _⟩ := st.stor h.key h.pid habs
+  obtain ⟨hpid, hsid, _⟩ := getC_some hC
+  have ca := hi.acc.conns h.pid s c hC P S hP hS
+  generalize hS' : ({ S with held := S.held.eraseIdx k } : Sub) = S'
+  have hS'f : S'.alive = S.alive ∧ S'.ex = S.ex ∧ S'.storage = S.storage ∧ S'.held = l1 ++ l2 ∧
+      stop S' = stop S := by
+    subst hS'; exact ⟨rfl, rfl, rfl, e2, rfl⟩
+  obtain ⟨f1, f2, f3, f4, f5⟩ := hS'f
+  -- the held chunks
+  have hof : ∀ (T : Sub) (a : Nat), heldOf T a = (T.held.filter fun x => x.pid = a).map (·.chunk) :=
+    fun _ _ => rfl
+  have hheldp : heldOf S h.pid = heldOf { S with held := l1 } h.pid ++ h.chunk ::
+      heldOf { S with held := l2 } h.pid := by
+    simp only [hof, e1, List.filter_append, List.map_append, List.filter_cons, decide_true,
+      if_true, List.map_cons]
+  have hheldp' : heldOf S' h.pid = heldOf { S with held := l1 } h.pid ++
+      heldOf { S with held := l2 } h.pid := by
+    simp only [hof, f4, List.filter_append, List.map_append]
+  have hheldo : ∀ a, a ≠ h.pid → heldOf S' a = heldOf S a := by
+    intro a ha
+    have : ¬ h.pid = a := fun e => ha e.symm
+    simp only [hof, f4, e1, List.filter_append, List.map_append, List.filter_cons, this,
+      decide_false, Bool.false_eq_true, if_false]
+  have hb1 : 1 ≤ c.borrow := by
+    rw [ca.borrow, hpid, hheldp, List.length_append, List.length_cons]; omega
+  -- the function
+  have hres : subRelease (setS w s S') s h =
+      setC (setS w s S') { c with comp := c.comp ++ [h.chunk], borrow := c.borrow - 1 } := by
+    have hsm : smGet S'.storage h.key = some h.pid := by rw [smGet_eq_abs, f3]; exact habs
+    have hgS : getS (setS w s S') s = some S' := by simp [hS]
+    have hgC : getC (setS w s S') h.pid s = some c := hC
+    have hcap : c.comp.length < c.cap + (setS w s S').cfg.borrowMax + 1 := by
+      have := ca.total
+      show c.comp.length < c.cap + w.cfg.borrowMax + 1
+      omega
+    simp only [subRelease, hgS, hsm, ne_eq, not_true_eq_false, if_false, hgC, hcap, if_true]
+  rw [hres]
+  refine Inv.update_SC hi hS hC f5 rfl rfl hheldo ⟨?_, ?_, ?_⟩ ?_
+  · intro hex
+    rw [f2] at hex
+    rw [a1 hex] at hmem; cases hmem
+  · intro x hx
+    rw [f3]
+    apply a2
+    rw [e1]; rw [f4] at hx
+    rcases List.mem_append.mp hx with hx | hx
+    · exact List.mem_append_left _ hx
+    · exact List.mem_append_right _ (List.mem_cons_of_mem _ hx)
+  · intro hal x hx
+    rw [f1] at hal
+    apply a3 hal
+    rw [e1]; rw [f4] at hx
+    rcases List.mem_append.mp hx with hx | hx
+    · exact List.mem_append_left _ hx
+    · exact List.mem_append_right _ (List.mem_cons_of_mem _ hx)
+  · intro P' hP'
+    rw [hP] at hP'; cases hP'
+    have hperm : (flight { c with comp := c.comp ++ [h.chunk], borrow := c.borrow - 1 } S').Perm
+        (flight c S) := by
+      unfold flight
+      simp only [hpid, hheldp, hheldp']
+      rw [List.perm_iff_count]
+      intro x
+      simp only [List.count_append, List.count_cons, List.count_nil]
+      omega
+    refine ⟨ca.usedLen, ca.subCap, ?_, ?_, ?_, ?_, ?_, ?_⟩
+    · have := ca.borrowMax; show c.borrow - 1 ≤ w.cfg.borrowMax; omega
+    · have := ca.total
+      show c.sub.length + (c.borrow - 1) + (c.comp ++ [h.chunk]).length ≤
+        max c.cap 1 + w.cfg.borrowMax
+      rw [List.length_append, List.length_singleton]
+      omega
+    · show c.borrow - 1 = (heldOf S' c.pid).length
+      have := ca.borrow
+      rw [hpid, hheldp, List.length_append, List.length_cons] at this
+      rw [hpid, hheldp', List.length_append]
+      omega
+    · intro hsa
+      exact hperm.nodup_iff.mpr (ca.nodup hsa)
+    · intro hsa x
+      rw [hperm.mem_iff]
+      exact ca.used hsa x
+    · intro hsa hex
+      obtain ⟨i1, i2⟩ := ca.idle hsa hex
+      refine ⟨i1, ?_⟩
+      intro hal
+      rw [f1] at hal
+      have := (i2 hal).2.2
+      omega
+
 end Iox2.PubSub.C02P
